@@ -45,6 +45,8 @@ fn run_line(line: &str) -> String {
         "HDRMOD" => header::run_hdrmod(args),
         "PEEKF" => header::run_peekf(args),
         "SHOW" => observe::run_show(args),
+        "COUNTS" => header::run_counts(args),
+        "SOCK" => mdns::run_sock(args),
         "TXTATTR" => textapi::run_txtattr(args),
         "ATTRMAP" => textapi::run_attrmap(args),
         "ESCAPE" => textapi::run_escape(args),
